@@ -629,7 +629,7 @@ pub fn families_c10(tier: Tier) -> Vec<Family> {
     let q = tier == Tier::Quick;
     let mut v = vec![];
     for (i, st) in gen::STYLES.iter().enumerate() {
-        let n = if q { 3 } else { 4 };
+        let n = if q { 3 } else { 5 };
         let docs = c10_gen(st.clone()).docs(n);
         let all = i == 0;
         v.push(Family::of_vec(&format!("docs<={}nodes/style{}", n, i), docs, move |d, ctx| check_get_doc(ctx, d.as_bytes(), all)));
@@ -637,7 +637,7 @@ pub fn families_c10(tier: Tier) -> Vec<Family> {
     // deeper documents over a smaller leaf set
     {
         let g = DocGen { leaves: gen::strs(&["1", "\"s\\\"]\""]), keys: gen::strs(&["\"a\"", "\"b\\u0062\""]), style: gen::SPACED, allow_dup_keys: false };
-        let n = if q { 5 } else { 6 };
+        let n = if q { 5 } else { 7 };
         v.push(Family::of_vec(&format!("deep-docs<={}nodes", n), g.docs(n), move |d, ctx| check_get_doc(ctx, d.as_bytes(), false)));
     }
     v.push(Family::of_vec("block-edge-sweep", block_edge_docs(if q { 70 } else { 135 }), |d, ctx| check_get_doc(ctx, d, false)));
@@ -860,6 +860,66 @@ pub fn check_get_many_doc(ctx: &mut Ctx, doc: &[u8], max_paths: usize) {
     ctx.sample(|| json!({"doc": String::from_utf8_lossy(doc), "path_universe": n}));
 }
 
+/// `{"a":` x p, `[` x d, 1, closers: the path of p keys resolves to a value nested d deep
+pub fn check_deep_get_many(ctx: &mut Ctx, p: usize, d: usize) {
+    ctx.nontrivial();
+    let mut doc = String::new();
+    for _ in 0..p {
+        doc.push_str("{\"a\":");
+    }
+    doc.push_str(&"[".repeat(d));
+    doc.push('1');
+    doc.push_str(&"]".repeat(d));
+    doc.push_str(&"}".repeat(p));
+    let run = move || -> Result<Vec<String>, String> {
+        let mut out = vec![];
+        let full: Vec<PointerNode> = (0..p).map(|_| PointerNode::Key("a".into())).collect();
+        let half: Vec<PointerNode> = (0..p / 2).map(|_| PointerNode::Key("a".into())).collect();
+        let single_full = sonic_rs::get(doc.as_bytes(), full.iter()).map(|lv| lv.as_raw_str().to_string());
+        let single_half = sonic_rs::get(doc.as_bytes(), half.iter()).map(|lv| lv.as_raw_str().to_string());
+        for unchecked in [false, true] {
+            let name = if unchecked { "get_many_unchecked" } else { "get_many" };
+            let mut tree = PointerTree::new();
+            tree.add_path(full.iter());
+            tree.add_path(half.iter());
+            let r = if unchecked { unsafe { sonic_rs::get_many_unchecked(doc.as_bytes(), &tree) } } else { sonic_rs::get_many(doc.as_bytes(), &tree) };
+            match (&single_full, &single_half, r) {
+                (Ok(a), Ok(b), Ok(slots)) => {
+                    let g: Vec<Option<String>> = slots.iter().map(|o| o.as_ref().map(|lv| lv.as_raw_str().to_string())).collect();
+                    if g != vec![Some(a.clone()), Some(b.clone())] {
+                        out.push(format!("{name}: slots differ from single-path get (lengths {:?} vs {} / {})", g.iter().map(|x| x.as_ref().map(|s| s.len())).collect::<Vec<_>>(), a.len(), b.len()));
+                    }
+                }
+                (Ok(_), Ok(_), Err(e)) => out.push(format!("{name} fails although both paths resolve through get: {}", e.to_string().lines().next().unwrap_or(""))),
+                (_, _, Ok(_)) => {
+                    // single-path get hit the nesting limit (it validates the whole value below
+                    // the shorter path, get_many descends through it): a resource limit, no verdict
+                }
+                (_, _, Err(_)) => {}
+            }
+        }
+        Ok(out)
+    };
+    // deep documents: run on a thread with a generous stack
+    let r = std::thread::Builder::new().stack_size(256 << 20).spawn(move || guard(run)).unwrap().join();
+    ctx.state();
+    ctx.calls(4);
+    match r {
+        Ok(Ok(Ok(msgs))) => {
+            if msgs.is_empty() {
+                ctx.outcome("deep:get_many-agrees-with-get");
+            }
+            for m in msgs {
+                ctx.violation("deep-path/get_many-vs-get", json!({"path_keys": p, "value_depth": d, "mismatch": m}));
+            }
+        }
+        Ok(Ok(Err(m))) => ctx.violation("deep-path/harness", json!({"path_keys": p, "value_depth": d, "mismatch": m})),
+        Ok(Err(pn)) => ctx.violation("panic/deep-path", json!({"path_keys": p, "value_depth": d, "panic": pn})),
+        Err(_) => ctx.violation("panic/deep-path-thread", json!({"path_keys": p, "value_depth": d})),
+    }
+    ctx.sample(|| json!({"path_keys": p, "value_depth": d}));
+}
+
 // schema extraction --------------------------------------------------------------------------
 
 /// reference merge on canonical dumps with sorted keys
@@ -957,7 +1017,7 @@ pub fn families_c11(tier: Tier) -> Vec<Family> {
     let mut v = vec![];
     {
         let g = DocGen { leaves: gen::strs(&["1", "\"s]\"", "null"]), keys: gen::strs(&["\"a\"", "\"b\\u0062\""]), style: gen::SPACED, allow_dup_keys: false };
-        let n = if q { 4 } else { 5 };
+        let n = if q { 4 } else { 6 };
         let k = if q { 2 } else { 3 };
         v.push(Family::of_vec(&format!("docs<={}nodes x path-tuples<={}", n, k), g.docs(n), move |d, ctx| check_get_many_doc(ctx, d.as_bytes(), k)));
     }
@@ -969,7 +1029,7 @@ pub fn families_c11(tier: Tier) -> Vec<Family> {
     {
         // nested arrays with brackets in strings: the unchecked multi-index skipper
         let g = DocGen { leaves: gen::strs(&["1", "\"]\""]), keys: gen::strs(&["\"m\""]), style: gen::COMPACT, allow_dup_keys: false };
-        let n = if q { 5 } else { 6 };
+        let n = if q { 5 } else { 7 };
         v.push(Family::of_vec(&format!("array-heavy-docs<={}nodes x path-tuples<=2", n), g.docs(n), move |d, ctx| check_get_many_doc(ctx, d.as_bytes(), 2)));
     }
     {
@@ -984,6 +1044,17 @@ pub fn families_c11(tier: Tier) -> Vec<Family> {
         let n = if q { 3 } else { 4 };
         v.push(Family::of_vec(&format!("escaped-leaves-docs<={}nodes x path-tuples<=2", n), g.docs(n), move |d, ctx| check_get_many_doc(ctx, d.as_bytes(), 2)));
         v.push(Family::of_vec("number-shapes+spaced-empties x path-tuples<=2", shape_docs(), |d, ctx| check_get_many_doc(ctx, d, 2)));
+    }
+    {
+        // path length + nesting of the addressed value around the parser's depth limit (512):
+        // whatever single-path get answers, get_many must answer too
+        let mut grid: Vec<(usize, usize)> = vec![];
+        for p in [1usize, 50, 150, 255, 256, 400, 511] {
+            for d in [1usize, 100, 256, 400, 510, 511, 512] {
+                grid.push((p, d));
+            }
+        }
+        v.push(Family::of_vec("long-path x deep-value", grid, |(p, d), ctx| check_deep_get_many(ctx, *p, *d)));
     }
     // (schema, document) pairs
     {
@@ -1367,6 +1438,32 @@ pub fn iter_inputs(max_members: usize, thorough: bool) -> Vec<Vec<u8>> {
             }
         }
     }
+    // the same mutations one level finer: the members' own tokens (nested containers opened up),
+    // plus insertion of every T16 token at every token boundary (e.g. a comma before a nested `}`)
+    for b in &bases {
+        let whole = join(b, b"");
+        let toks: Vec<Vec<u8>> = crate::props::c04::tokenize(std::str::from_utf8(&whole).unwrap()).into_iter().map(|t| t.into_bytes()).collect();
+        for i in 0..=toks.len() {
+            for tok in gen::T16 {
+                let mut d = toks.clone();
+                d.insert(i, tok.to_vec());
+                out.push(join(&d, b""));
+            }
+            if i < toks.len() {
+                let mut d = toks.clone();
+                d.remove(i);
+                out.push(join(&d, b""));
+                let mut d = toks.clone();
+                d.insert(i, toks[i].clone());
+                out.push(join(&d, b" "));
+                for tok in gen::T16 {
+                    let mut d = toks.clone();
+                    d[i] = tok.to_vec();
+                    out.push(join(&d, b""));
+                }
+            }
+        }
+    }
     out.sort();
     out.dedup();
     out.sort_by(|a, b| (a.len(), a).cmp(&(b.len(), b)));
@@ -1376,10 +1473,10 @@ pub fn iter_inputs(max_members: usize, thorough: bool) -> Vec<Vec<u8>> {
 pub fn families_c12(tier: Tier) -> Vec<Family> {
     let q = tier == Tier::Quick;
     let mut v = vec![];
-    v.push(Family::of_vec("container-mutations", iter_inputs(if q { 4 } else { 6 }, !q), |d, ctx| check_iter(ctx, d, true)));
+    v.push(Family::of_vec("container-mutations", iter_inputs(if q { 4 } else { 7 }, !q), |d, ctx| check_iter(ctx, d, true)));
     {
         let k = gen::T16.len() as u64;
-        let l = if q { 4 } else { 5 };
+        let l = if q { 4 } else { 7 };
         v.push(Family::new("t16-full", gen::seq_count(k, l), move |idx, ctx| {
             let mut seq = vec![];
             gen::nth_seq(k, l, idx, &mut seq);
@@ -1429,7 +1526,7 @@ pub fn families_c12(tier: Tier) -> Vec<Family> {
     // B11 string bodies as element and as key
     {
         let k = gen::B11.len() as u64;
-        let l = if q { 3 } else { 4 };
+        let l = if q { 3 } else { 5 };
         v.push(Family::new("b11-element-and-key", gen::seq_count(k, l), move |idx, ctx| {
             let mut seq = vec![];
             gen::nth_seq(k, l, idx, &mut seq);
@@ -1636,7 +1733,7 @@ pub fn families_c14(tier: Tier) -> Vec<Family> {
     // (i) raw token sequences
     {
         let k = gen::T16.len() as u64;
-        let l = if q { 4 } else { 5 };
+        let l = if q { 4 } else { 6 };
         let p = paths.clone();
         v.push(Family::new("t16-full", gen::seq_count(k, l), move |idx, ctx| {
             let mut seq = vec![];
@@ -1722,6 +1819,60 @@ pub fn families_c14(tier: Tier) -> Vec<Family> {
             d.push(b'"');
             d.extend_from_slice(b);
             check_validating(ctx, &d, std::slice::from_ref(path), false);
+        }));
+    }
+    // (ii-0) nesting around the skipper's depth limit (512) with a defect in the innermost
+    // container, in a member that is skipped on the way and in the member that is returned
+    {
+        let mut inputs: Vec<(Vec<u8>, Vec<Vec<Seg>>)> = vec![];
+        let inners: [&[u8]; 8] = [b"[1 2]", b"{\"k\" 1}", b"[tru]", b"[1,]", b"\"\x01\"", b"[1]", b"1 2", b"{\"k\":1,}"];
+        let depths: Vec<usize> = if q { vec![255, 510, 511, 512, 513] } else { (505..=520).chain([100, 255, 256, 1000]).collect() };
+        for n in depths {
+            for inner in inners {
+                for obj in [false, true] {
+                    let (open, close): (&[u8], &[u8]) = if obj { (b"{\"k\":", b"}") } else { (b"[", b"]") };
+                    let mut nest = vec![];
+                    for _ in 0..n {
+                        nest.extend_from_slice(open);
+                    }
+                    nest.extend_from_slice(inner);
+                    for _ in 0..n {
+                        nest.extend_from_slice(close);
+                    }
+                    let cat = |parts: &[&[u8]]| parts.concat();
+                    inputs.push((cat(&[b"{\"x\":", &nest, b",\"a\":1}"]), vec![vec![Seg::Key("a".into())]]));
+                    inputs.push((cat(&[b"{\"a\":", &nest, b"}"]), vec![vec![Seg::Key("a".into())]]));
+                    inputs.push((cat(&[b"[", &nest, b",7]"]), vec![vec![Seg::Idx(1)], vec![Seg::Idx(0)]]));
+                }
+            }
+        }
+        v.push(Family::of_vec("nesting-at-the-depth-limit x inner defect", inputs, |(d, sp), ctx| {
+            std::thread::scope(|s| {
+                std::thread::Builder::new()
+                    .stack_size(512 << 20)
+                    .spawn_scoped(s, || {
+                        // lookups: Ok only for validated text (a depth-limit error is always fine)
+                        check_validating(ctx, d, sp, false);
+                        // iterators: a member that is not a well-formed value is never yielded
+                        if d[0] == b'[' {
+                            let first_ok = refjson::parse_value_at(d, 1, RMode::Grammar).is_ok();
+                            let r = guard(|| sonic_rs::to_array_iter(&d[..]).next().map(|r| r.is_ok()));
+                            ctx.state();
+                            ctx.call();
+                            match r {
+                                Ok(Some(true)) if !first_ok => {
+                                    ctx.outcome("VIOL:deep-iter");
+                                    ctx.violation("iterator-yields-malformed-member", json!({"input_len": d.len(), "input_tail": show(&d[d.len() / 2 - 12..d.len() / 2 + 12])}));
+                                }
+                                Ok(_) => ctx.outcome("deep-iter:ok"),
+                                Err(p) => ctx.violation("panic/deep-iter", json!({"input_len": d.len(), "panic": p})),
+                            }
+                        }
+                    })
+                    .unwrap()
+                    .join()
+                    .unwrap();
+            });
         }));
     }
     // (ii-a) number shapes and non-minimal empty containers, every path of each
